@@ -60,7 +60,37 @@ func nilTests(v ssa.Value) (succ, fail map[[2]int]bool) {
 	if v == nil || v.Referrers() == nil {
 		return
 	}
+	refs := append([]ssa.Instruction{}, *v.Referrers()...)
+	// the value assigned to a variable (`if err = f(); err != nil`, a named
+	// result): the comparisons of the loads that read it back in the same
+	// block before the variable is assigned again
 	for _, ref := range *v.Referrers() {
+		st, ok := ref.(*ssa.Store)
+		if !ok || st.Val != v {
+			continue
+		}
+		al, ok := st.Addr.(*ssa.Alloc)
+		if !ok {
+			continue
+		}
+		after := false
+		for _, in := range st.Block().Instrs {
+			if in == ssa.Instruction(st) {
+				after = true
+				continue
+			}
+			if !after {
+				continue
+			}
+			if s2, ok := in.(*ssa.Store); ok && s2.Addr == ssa.Value(al) {
+				break
+			}
+			if ld, ok := in.(*ssa.UnOp); ok && ld.Op == token.MUL && ld.X == ssa.Value(al) && ld.Referrers() != nil {
+				refs = append(refs, *ld.Referrers()...)
+			}
+		}
+	}
+	for _, ref := range refs {
 		b, ok := ref.(*ssa.BinOp)
 		if !ok || (b.Op != token.EQL && b.Op != token.NEQ) {
 			continue
@@ -448,3 +478,7 @@ func tracesTo(c *Ctx, v, target ssa.Value, d int) bool {
 	}
 	return n > 0
 }
+
+// readOnlySliceFunc: library functions of packages sort and slices that only
+// read the slice they are given.
+var readOnlySliceFunc = map[string]bool{"slices.Contains": true, "slices.ContainsFunc": true, "slices.Index": true, "slices.IndexFunc": true, "slices.Equal": true, "slices.EqualFunc": true, "slices.Max": true, "slices.Min": true, "slices.MaxFunc": true, "slices.MinFunc": true, "slices.Clone": true, "slices.Values": true, "slices.All": true, "slices.BinarySearch": true, "slices.BinarySearchFunc": true, "slices.IsSorted": true, "slices.IsSortedFunc": true, "sort.SearchStrings": true, "sort.SearchInts": true, "sort.Search": true, "sort.StringsAreSorted": true, "sort.IntsAreSorted": true, "sort.IsSorted": true, "sort.SliceIsSorted": true}
